@@ -304,7 +304,8 @@ pub fn riff(r: &mut Rng, form: &[u8; 4]) -> Vec<u8> {
 }
 
 pub fn tiff(r: &mut Rng) -> Vec<u8> {
-    // little-endian, one IFD, one strip placed before or after the IFD
+    // either byte order, one IFD, one strip placed before or after the IFD
+    let be = r.chance(1, 3);
     let strip_len = r.usize(4, 40);
     let strip = r.bytes(strip_len);
     let strip_first = r.chance(1, 2);
@@ -320,18 +321,31 @@ pub fn tiff(r: &mut Rng) -> Vec<u8> {
     } else {
         (8, 8 + ifd_len)
     };
-    let mut v = vec![b'I', b'I', 42, 0];
-    v.extend(le32(ifd_off));
+    let mut v = if be { vec![b'M', b'M', 0, 42] } else { vec![b'I', b'I', 42, 0] };
+    v.extend(if be { (ifd_off as u32).to_be_bytes() } else { le32(ifd_off) });
     let ent = |tag: u16, typ: u16, cnt: u32, val: u32| {
         let mut e = Vec::new();
-        e.extend(tag.to_le_bytes());
-        e.extend(typ.to_le_bytes());
-        e.extend(cnt.to_le_bytes());
-        e.extend(val.to_le_bytes());
+        if be {
+            e.extend(tag.to_be_bytes());
+            e.extend(typ.to_be_bytes());
+            e.extend(cnt.to_be_bytes());
+            if typ == 3 {
+                // a SHORT sits in the first two bytes of the value field
+                e.extend((val as u16).to_be_bytes());
+                e.extend([0u8, 0]);
+            } else {
+                e.extend(val.to_be_bytes());
+            }
+        } else {
+            e.extend(tag.to_le_bytes());
+            e.extend(typ.to_le_bytes());
+            e.extend(cnt.to_le_bytes());
+            e.extend(val.to_le_bytes());
+        }
         e
     };
     let mut ifd = Vec::new();
-    ifd.extend((n_entries as u16).to_le_bytes());
+    ifd.extend(if be { (n_entries as u16).to_be_bytes() } else { (n_entries as u16).to_le_bytes() });
     ifd.extend(ent(256, 3, 1, 1)); // width
     ifd.extend(ent(257, 3, 1, 1)); // length
     ifd.extend(ent(258, 3, 1, 8)); // bits
